@@ -490,6 +490,15 @@ package exec
 //@ spec func compiledOK(ts []*Task, s bigslice.Slice, n int) bool = implies(!isResultSlice(s), len(ts) == slNumShard(s)) && implies(!isResultSlice(s) || n != 0, forall(i, 0, len(ts), taskShape(ts[i], s, n)) && namesOK(ts))
 //@ spec func memoOK(c *compiler) bool = forall(k, memoKey, implies(has(c.memo, k), (c.memo[k].arr == 0 || allocated(c.memo[k].arr)) && compiledOK(c.memo[k], k.slice, k.numPartition)))
 
+// Wiring of one dependency edge of shard p (of n) of a consumer compiled from the pipeline ending in a slice whose
+// j'th dependency is dep: a shuffle edge reads partition p of the producer set headed by its shard 0, which writes n
+// partitions; a narrow edge reads the only partition of the producer's shard p.
+//@ spec func depWired(d TaskDep, dep bigslice.Dep, p int, n int, key string) bool = d.Expand == dep.Expand && ite(dep.Shuffle, d.Partition == p && d.CombineKey == key && d.Head != nil && d.Head.NumPartition == n && d.Head.Type == dep.Slice && d.Head.Name.Shard == 0, d.Partition == 0 && d.CombineKey == "" && implies(!isResultSlice(dep.Slice), d.Head != nil && d.Head.NumPartition == 1 && d.Head.Type == dep.Slice && d.Head.Name.Shard == p))
+//@ spec func depsUpTo(t *Task, last bigslice.Slice, p int, n int, cnt int, key string) bool = len(t.Deps) == cnt && forall(j, 0, cnt, depWired(t.Deps[j], slDep(last, j), p, n, key))
+//@ spec func depsSep(ts []*Task) bool = forall(p, 0, len(ts), forall(q, 0, len(ts), implies(p != q && ts[p].Deps.arr != 0, ts[p].Deps.arr != ts[q].Deps.arr)))
+//@ spec func combineKeyOf(c *compiler, last bigslice.Slice, op string) string = ite(!funcIsNil(slCombiner(last)) && c.machineCombiners, op, "")
+//@ spec func opCached(c *compiler, n TaskName, lo int, hi int) bool = exists(k, lo, hi, c.inv.Env.Cached[taskOp{n, k}])
+
 // The memo is keyed by the slice itself (not what it wraps) and by the partition count as configured (0 = not a
 // shuffle): a compiled task set is reused only for exactly that use. Every task set handed out for a slice that is
 // not a reused result has one task per shard, each writing partN(numPartition) partitions of the slice's own type;
@@ -510,15 +519,24 @@ package exec
 //@   ensures  memo-ok: memoOK(c)
 //@   ensures  new-group: implies(err == nil && part.numPartition != 0 && !(memoable(part) && old(has(c.memo, memoKey{slice, part.numPartition}))), forall(i, 0, len(tasks), sameTasks(tasks[i].Group, tasks)))
 //@   ensures  reused-result: implies(err == nil && isResultSlice(slice) && part.numPartition == 0 && !(memoable(part) && old(has(c.memo, memoKey{slice, part.numPartition}))), sameTasks(tasks, unbox(slUnwrap(slice), *Result).tasks))
+//@   ensures  pipelined: implies(err == nil && !isResultSlice(slice) && !(memoable(part) && old(has(c.memo, memoKey{slice, part.numPartition}))), forall(p, 0, len(tasks), len(tasks[p].Slices) > 0 && tasks[p].Slices[0] == slice && forall(i, 0, len(tasks[p].Slices) - 1, pipeLink(tasks[p].Slices[i], tasks[p].Slices[i+1]))))
+//@   ensures  wired: implies(err == nil && !isResultSlice(slice) && !(memoable(part) && old(has(c.memo, memoKey{slice, part.numPartition}))), forall(p, 0, len(tasks), let(last, tasks[p].Slices[len(tasks[p].Slices)-1], ite(opCached(c, tasks[p].Name, 0, len(tasks[p].Slices)), len(tasks[p].Deps) == 0, depsUpTo(tasks[p], last, p, len(tasks), slNumDep(last), combineKeyOf(c, last, tasks[p].Name.Op))))))
 //@   modifies c.memo[:], c.namer[:], c.inv.Env.Cached[:]
 //@   loop 2 invariant len(tasks) == len(result.tasks) && fresh(tasks) && memoOK(c)
-//@   loop 2 invariant forall(j, 0, range_idx, ownTask(tasks[j], slice, part, shuffleOpName, c.inv.Index, j, len(tasks))) && forall(j, range_idx, len(tasks), tasks[j] == nil)
+//@   loop 2 invariant result-shuffle-partitioned: forall(j, 0, range_idx, ownTask(tasks[j], slice, part, shuffleOpName, c.inv.Index, j, len(tasks))) && forall(j, range_idx, len(tasks), tasks[j] == nil)
 //@   loop 3 invariant -1 <= i && i < len(slices) && fresh(ops) && (pragmas == nil || fresh(pragmas))
 //@   loop 4 invariant len(tasks) == slNumShard(slice) && fresh(tasks) && memoOK(c)
-//@   loop 4 invariant forall(j, 0, range_idx, ownTask(tasks[j], slice, part, opName, c.inv.Index, j, len(tasks)) && tasks[j].Deps == nil) && forall(j, range_idx, len(tasks), tasks[j] == nil)
+//@   loop 4 invariant forall(j, 0, range_idx, ownTask(tasks[j], slice, part, opName, c.inv.Index, j, len(tasks)) && tasks[j].Deps.arr == 0 && len(tasks[j].Deps) == 0) && forall(j, range_idx, len(tasks), tasks[j] == nil)
 //@   loop 5 invariant 0 <= i && memoOK(c) && memoGrown(c) && depsFresh(tasks)
 //@   loop 5 invariant forall(j, 0, len(tasks), ownTask(tasks[j], slice, part, opName, c.inv.Index, j, len(tasks)))
-//@   loop 6 invariant depsFresh(tasks)
-//@   loop 7 invariant depsFresh(tasks)
-//@   loop 11 invariant forall(j, 0, len(tasks), tasks[j] == nil || fresh(tasks[j]))
+//@   loop 5 invariant wired-so-far: i <= slNumDep(lastSlice) && depsSep(tasks) && forall(p, 0, len(tasks), depsUpTo(tasks[p], lastSlice, p, len(tasks), i, combineKeyOf(c, lastSlice, opName)))
+//@   loop 6 invariant depsFresh(tasks) && depsSep(tasks)
+//@   loop 6 invariant narrow-wired: forall(p, 0, range_idx, depsUpTo(tasks[p], lastSlice, p, len(tasks), i + 1, combineKeyOf(c, lastSlice, opName))) && forall(p, range_idx, len(tasks), depsUpTo(tasks[p], lastSlice, p, len(tasks), i, combineKeyOf(c, lastSlice, opName)))
+//@   loop 7 invariant depsFresh(tasks) && depsSep(tasks)
+//@   loop 7 invariant shuffle-wired: forall(p, 0, range_idx, depsUpTo(tasks[p], lastSlice, p, len(tasks), i + 1, combineKeyOf(c, lastSlice, opName))) && forall(p, range_idx, len(tasks), depsUpTo(tasks[p], lastSlice, p, len(tasks), i, combineKeyOf(c, lastSlice, opName)))
+//@   loop 8 invariant -1 <= opIdx && opIdx < len(slices)
+//@   loop 8 invariant cached-drop: forall(p, 0, len(tasks), ite(opCached(c, tasks[p].Name, opIdx + 1, len(slices)), len(tasks[p].Deps) == 0, depsUpTo(tasks[p], lastSlice, p, len(tasks), slNumDep(lastSlice), combineKeyOf(c, lastSlice, opName))))
+//@   loop 9 invariant forall(p, 0, len(tasks), opCached(c, tasks[p].Name, opIdx + 1, len(slices)) == at_loop(9, opCached(c, tasks[p].Name, opIdx + 1, len(slices))))
+//@   loop 10 invariant cached-drop: forall(p, 0, range_idx, ite(opCached(c, tasks[p].Name, opIdx, len(slices)), len(tasks[p].Deps) == 0, depsUpTo(tasks[p], lastSlice, p, len(tasks), slNumDep(lastSlice), combineKeyOf(c, lastSlice, opName)))) && forall(p, range_idx, len(tasks), ite(opCached(c, tasks[p].Name, opIdx + 1, len(slices)), len(tasks[p].Deps) == 0, depsUpTo(tasks[p], lastSlice, p, len(tasks), slNumDep(lastSlice), combineKeyOf(c, lastSlice, opName))))
+//@   loop 11 invariant forall(j, 0, len(tasks), tasks[j] == nil || fresh(tasks[j])) && forall(j, 0, range_idx, tasks[j].Slices.arr == slices.arr && tasks[j].Slices.off == slices.off && len(tasks[j].Slices) == len(slices))
 //@   loop 12 invariant forall(j, 0, len(tasks), tasks[j] == nil || fresh(tasks[j])) && forall(j, 0, range_idx, sameTasks(tasks[j].Group, tasks))
